@@ -89,7 +89,7 @@ def run(ctx):
             r.check('timers', 'io_loop::Inner::start_heartbeats(inner, %s.heartbeat)' % mto in eff, ctx.site(c16.PROC), built=[e for e in eff if 'start_heartbeats' in e])
             r.check('wire', 'io_loop::Inner::push_method(inner, 0, amq_protocol::protocol::connection::AMQPMethod::TuneOk(%s))' % mto in eff, ctx.site(c16.PROC))
             r.check('state', 'self = %sOpen(%s, self.Tune.1)' % (c16.HS, mto) in eff, ctx.site(c16.PROC))
-        done = [x for x in rows if x.conds and x.conds[-1][1] == 'not Ok(_)' and x.conds[1] == ('self', c16.HS + 'Open(_, _)')]
+        done = [x for x in rows if len(x.conds) >= 3 and x.conds[-1][1] == 'Err(_)' and x.conds[1] == ('self', c16.HS + 'Open(_, _)')]
         r.check('state:Open->Done', len(done) == 1 and 'self = %sDone(self.Open.0, self.Open.1, std::vec::Vec::new())' % c16.HS in done[0].effects, ctx.site(c16.PROC))
         # thread_main: channel limit and frame_max hand-over from the returned TuneOk
         rows = P.table(ctx, 'io_loop::IoLoop::thread_main', ['self', 'stream', 'options', 'handshake_done_tx', 'ch0_slot', 'have_written_to_socket'])
